@@ -693,6 +693,13 @@ package leveldb
 //@     invariant [C07,C11:one-remove-per-table] calls("(*tOps).remove") == old(calls("(*tOps).remove")) + rangeidx && sameslice(tr.tables, old(tr.tables))
 //@   ensures [C07,C11:every-table-removed] calls("(*tOps).remove") == old(calls("(*tOps).remove")) + len(old(tr.tables))
 
+// C03 / C11 / C02: the sequence numbers a discarded transaction had stamped on its records are not handed out again:
+// an iterator created on the transaction keeps reading at the transaction's sequence number, and later writes of the
+// DB that reused those numbers would surface in it (F23).
+//@ func (*Transaction).discard
+//@   props C03 C11 C02
+//@   ensures [C02,C03,C11:a-discarded-transactions-sequence-numbers-are-not-reused] tr.db.seq == tr.seq && tr.seq == old(tr.seq)
+
 //@ func (*Transaction).Discard
 //@   props C11
 //@   ensures [C11:discard-then-done] !old(tr.closed) ==> (calls("(*Transaction).discard") == old(calls("(*Transaction).discard")) + 1 && calls("(*Transaction).setDone") == old(calls("(*Transaction).setDone")) + 1)
@@ -1136,6 +1143,15 @@ package leveldb
 //@     assert [C01,C03,C06,C07:builder-fills-this-compactions-record] b.rec == rec && b.c == c
 //@   at before call (*DB).compactionCommit#2
 //@     assert [C01,C03,C06,C07:the-record-filled-is-the-record-committed] arg1 == rec
+// C09 / C08: when the cleanup after a failed compaction attempt fails itself (the partial output cannot be removed),
+// the builder still lets go of the writer it has dropped: a dropped writer has no table writer any more, and the
+// retried attempt would dereference nil in the compaction goroutine and take the whole process down - after which no
+// call is served at all (F25; reported independently by three agents).
+//@ func (*tableCompactionBuilder).cleanup
+//@   props C09 C08
+//@   safety off
+//@   ensures [C08,C09:the-builder-keeps-no-writer-it-has-dropped] b.tw == nil
+
 // C07: an output table that could not be finished stays with the builder, so that the builder's cleanup drops it
 // (removes the partial file and gives its number back); a finished one is handed to the record and leaves the builder.
 //@ func (*tableCompactionBuilder).flush
@@ -1519,8 +1535,10 @@ package leveldb
 //@ ghost var gPvPrevHas bool
 //@ ghost var gPvPrevIsVal bool
 //@ ghost var gPvPrevU key
+//@ ghost var gPvErrSeen bool
+//@ ghost var gPvErr bool
 //@ func (*dbIter).prev
-//@   props C02 C03
+//@   props C02 C03 C08
 //@   abstract keys
 //@   safety off
 //@   at entry
@@ -1535,6 +1553,17 @@ package leveldb
 //@   loop 1
 //@     invariant [C02,C03:candidate-is-the-last-visible-entry] (!del ==> (gPvHas && gPvIsVal && gPvU == krank(i.key))) && (del ==> (!gPvHas || !gPvIsVal))
 //@     invariant [C02,C03:direction-kept] i.dir == dirBackward
+// (C02 / C08: the backward walk ends where the source says it has no previous entry - and a source that stopped
+// because a read failed has not reached its start: the candidate gathered so far may be an older version of its key
+// than one in the block that could not be read. The walk may only end after the source's error was looked at and
+// found nil; F22.)
+//@   at call iterator.IteratorSeeker.Prev#1
+//@     ghost gPvErrSeen = false
+//@   at call iterator.CommonIterator.Error#1
+//@     ghost gPvErrSeen = true
+//@     ghost gPvErr = result != nil
+//@   at before stmt break#1
+//@     assert [C02,C03,C08:the-backward-walk-ends-only-at-a-start-reached-without-error] gPvErrSeen && !gPvErr
 //@   at before stmt return true#1
 //@     assert [C02,C03:newest-visible-version-complete] gPvPrevHas && gPvPrevIsVal && gPvPrevU == krank(i.key) && krank(ukey) != krank(i.key) && seq <= i.seq
 //@   at before stmt return true#2
@@ -1843,9 +1872,17 @@ package leveldb
 //@ func (*tOps).newIterator
 //@   props C02 C11 C01 C03
 //@   trusted
+// (C02: a range whose Start lies behind its Limit is an empty range, for a sorted level as for every other source: the
+// tables selected are tf[start:limit] with start <= limit; F24: it used to panic with "slice bounds out of range"
+// once two tables lay between the inverted bounds)
 //@ func (tFiles).newIndexIterator
 //@   props C02 C11 C01 C03
-//@   trusted
+//@   abstract keys
+//@   safety off
+//@   sortedinput the tables of a level below the top are sorted and disjoint (the C06 induction hypothesis)
+//@   assumepre
+//@   at before stmt tf = tf[start:limit]
+//@     assert [C02,C03,C11:an-inverted-range-selects-no-table-instead-of-failing] 0 <= start && start <= limit && limit <= len(tf)
 
 // C01: of the two write buffers the one still being written (newer) is asked before the frozen one (older, waiting to
 // be flushed), so that the newer entry of a key wins.
